@@ -587,7 +587,16 @@ func genFixed8Case(t *rapid.T) Fixed8Case {
 	default:
 		v = rapid.Int64().Draw(t, "any")
 	}
-	return Fixed8Case{V: v, In: genDecimalText(t, 10, 10)}
+	in := genDecimalText(t, 13, 10)
+	if rapid.IntRange(0, 5).Draw(t, "edge_in") == 0 {
+		// texts around the ends of the 64-bit range and around 2^64 (where a truncating conversion wraps to small values)
+		in = rapid.SampledFrom([]string{
+			"92233720368.54775807", "92233720368.54775808", "-92233720368.54775808", "-92233720368.54775809",
+			"92233720369", "-92233720369", "184467440737.09551616", "184467440737.09551617", "-184467440737.09551616",
+			"92233720368", "-92233720368", "922337203685", "1844674407370.9551616",
+		}).Draw(t, "edge")
+	}
+	return Fixed8Case{V: v, In: in}
 }
 
 func checkFixed8Case(c Fixed8Case, o *vt.Obs) error {
@@ -651,10 +660,16 @@ func checkFixed8Case(c Fixed8Case, o *vt.Obs) error {
 		switch {
 		case !ok && err == nil:
 			return fmt.Errorf("Fixed8FromString(%q) = %d, want an error (more than 8 fraction digits)", c.In, int64(got))
-		case ok && err != nil:
+		case ok && pv.IsInt64() && err != nil:
 			return fmt.Errorf("Fixed8FromString(%q): %v, want %s", c.In, err, pv)
 		case ok && pv.IsInt64() && int64(got) != pv.Int64():
 			return fmt.Errorf("Fixed8FromString(%q) = %d, want %s", c.In, int64(got), pv)
+		case ok && !pv.IsInt64() && err == nil:
+			// the text is a decimal no Fixed8 can hold: whatever is returned does not print back to it
+			return fmt.Errorf("Fixed8FromString(%q) = %d without an error, the value %s does not fit in 64 bits", c.In, int64(got), pv)
+		}
+		if ok && !pv.IsInt64() {
+			o.Label("in-out-of-range")
 		}
 	}
 	if !ok {
